@@ -202,6 +202,93 @@ func init() {
 	}
 	globalModels["github.com/cosmos/cosmos-sdk/types.DefaultPowerReduction"] = func(e *Exec) Value { return IntV{T: IntI(1000000)} }
 
+	// ---------- LegacyDec: integer scaled by 10^18 ----------
+	modelTypes["cosmossdk.io/math.LegacyDec"] = mt{
+		zero: func() Value { return DecV{Nil: true} },
+		sym: func(e *Exec, name string, t types.Type) Value {
+			v := e.fresh(name, IntSort)
+			e.assertPC(And(IGt(v, IntConst(new(big.Int).Neg(pow2(128)))), ILt(v, IntConst(pow2(128)))))
+			return DecV{T: v}
+		},
+	}
+	md := "(cosmossdk.io/math.LegacyDec)."
+	e18 := IntConst(new(big.Int).Exp(big.NewInt(10), big.NewInt(18), nil))
+	decNN := func(e *Exec, v Value) *Term {
+		if p, ok := v.(Ptr); ok {
+			v = e.peek(p)
+		}
+		d, ok := v.(DecV)
+		if !ok {
+			e.unsupported(fmt.Sprintf("expected LegacyDec, got %T", v))
+		}
+		if d.Nil {
+			e.goPanicStr("runtime error: invalid memory address or nil pointer dereference (nil LegacyDec)")
+		}
+		return d.T
+	}
+	models[md+"IsNil"] = func(e *Exec, a []Value) []Value { return []Value{BoolT(a[0].(DecV).Nil)} }
+	models[md+"IsZero"] = func(e *Exec, a []Value) []Value { return []Value{Eq(decNN(e, a[0]), IntI(0))} }
+	models[md+"IsPositive"] = func(e *Exec, a []Value) []Value { return []Value{IGt(decNN(e, a[0]), IntI(0))} }
+	models[md+"IsNegative"] = func(e *Exec, a []Value) []Value { return []Value{ILt(decNN(e, a[0]), IntI(0))} }
+	models[md+"Equal"] = func(e *Exec, a []Value) []Value { return []Value{Eq(decNN(e, a[0]), decNN(e, a[1]))} }
+	models[md+"GT"] = func(e *Exec, a []Value) []Value { return []Value{IGt(decNN(e, a[0]), decNN(e, a[1]))} }
+	models[md+"GTE"] = func(e *Exec, a []Value) []Value { return []Value{IGe(decNN(e, a[0]), decNN(e, a[1]))} }
+	models[md+"LT"] = func(e *Exec, a []Value) []Value { return []Value{ILt(decNN(e, a[0]), decNN(e, a[1]))} }
+	models[md+"LTE"] = func(e *Exec, a []Value) []Value { return []Value{ILe(decNN(e, a[0]), decNN(e, a[1]))} }
+	models[md+"Add"] = func(e *Exec, a []Value) []Value { return []Value{DecV{T: IAdd(decNN(e, a[0]), decNN(e, a[1]))}} }
+	models[md+"Sub"] = func(e *Exec, a []Value) []Value { return []Value{DecV{T: ISub(decNN(e, a[0]), decNN(e, a[1]))}} }
+	models[md+"MulInt"] = func(e *Exec, a []Value) []Value { return []Value{DecV{T: IMul(decNN(e, a[0]), e.intNN(a[1]))}} }
+	models[md+"MulInt64"] = func(e *Exec, a []Value) []Value {
+		return []Value{DecV{T: IMul(decNN(e, a[0]), BV2Int(asTerm(e, a[1])))}}
+	}
+	models[md+"Ceil"] = func(e *Exec, a []Value) []Value {
+		x := decNN(e, a[0])
+		// ceil(x/1e18)*1e18 ; SMT div floors for a positive divisor
+		q := IDiv(x, e18)
+		r := IMod(x, e18)
+		return []Value{DecV{T: IMul(Ite(Eq(r, IntI(0)), q, IAdd(q, IntI(1))), e18)}}
+	}
+	models[md+"RoundInt"] = func(e *Exec, a []Value) []Value {
+		x := decNN(e, a[0])
+		// banker's rounding; exact on integral values
+		q := IDiv(x, e18)
+		r := IMod(x, e18)
+		half := IntConst(new(big.Int).Div(e18.N, big.NewInt(2)))
+		up := Or(IGt(r, half), And(Eq(r, half), Eq(IMod(q, IntI(2)), IntI(1))))
+		return []Value{IntV{T: Ite(up, IAdd(q, IntI(1)), q)}}
+	}
+	models[md+"TruncateInt"] = func(e *Exec, a []Value) []Value {
+		return []Value{IntV{T: goQuo(decNN(e, a[0]), e18)}}
+	}
+	models[md+"String"] = func(e *Exec, a []Value) []Value {
+		d := a[0].(DecV)
+		if d.Nil {
+			return []Value{StrLit("<nil>")}
+		}
+		return []Value{App("str.dec", StrSort, d.T)}
+	}
+	models["cosmossdk.io/math.LegacyNewDec"] = func(e *Exec, a []Value) []Value {
+		return []Value{DecV{T: IMul(BV2Int(asTerm(e, a[0])), e18)}}
+	}
+	models["cosmossdk.io/math.LegacyNewDecFromInt"] = func(e *Exec, a []Value) []Value {
+		return []Value{DecV{T: IMul(e.intNN(a[0]), e18)}}
+	}
+	models["cosmossdk.io/math.LegacyZeroDec"] = func(e *Exec, a []Value) []Value { return []Value{DecV{T: IntI(0)}} }
+	models["cosmossdk.io/math.LegacyOneDec"] = func(e *Exec, a []Value) []Value { return []Value{DecV{T: e18}} }
+	models["cosmossdk.io/math.LegacyMaxDec"] = func(e *Exec, a []Value) []Value {
+		x, y := decNN(e, a[0]), decNN(e, a[1])
+		return []Value{DecV{T: Ite(ILt(x, y), y, x)}}
+	}
+	models["cosmossdk.io/math.LegacyMinDec"] = func(e *Exec, a []Value) []Value {
+		x, y := decNN(e, a[0]), decNN(e, a[1])
+		return []Value{DecV{T: Ite(ILt(x, y), x, y)}}
+	}
+	globalModels["github.com/cosmos/cosmos-sdk/types.MsgTypeURL"] = func(e *Exec) Value {
+		return &FuncV{Name: "MsgTypeURL", Native: func(e *Exec, a []Value) []Value {
+			return models["github.com/cosmos/cosmos-sdk/types.MsgTypeURL"](e, a)
+		}}
+	}
+
 	// ---------- denominations ----------
 	models["github.com/cosmos/cosmos-sdk/types.ValidateDenom"] = func(e *Exec, a []Value) []Value {
 		s := asTerm(e, a[0])
@@ -299,7 +386,7 @@ func init() {
 	models[sc+"ConsensusParams"] = func(e *Exec, a []Value) []Value {
 		c := ctxOf(e, a[0])
 		if c.ConsParam == nil {
-			e.unsupported("ConsensusParams not configured by the harness")
+			c.ConsParam = e.symConsParams()
 		}
 		return []Value{c.ConsParam}
 	}
@@ -462,4 +549,25 @@ func (e *Exec) newCtx(name string) *CtxV {
 		c.Gas = e.callFn(f, nil)[0]
 	}
 	return c
+}
+
+// symConsParams: consensus params whose validator section is absent, or lists one arbitrary key type
+func (e *Exec) symConsParams() Value {
+	t := e.W.typeByName("github.com/cometbft/cometbft/proto/tendermint/types", "ConsensusParams")
+	cp := e.zero(t).(*StructV)
+	st := t.Underlying().(*types.Struct)
+	for i := 0; i < st.NumFields(); i++ {
+		if st.Field(i).Name() != "Validator" {
+			continue
+		}
+		if e.decideBool(e.fresh("consParams.validator.nil", BoolSort)) {
+			return cp
+		}
+		vt := st.Field(i).Type().(*types.Pointer).Elem()
+		vp := e.zero(vt).(*StructV)
+		arr := &ArrayV{E: []Value{e.fresh("consParams.pubKeyType", StrSort)}}
+		vp.F[0] = &SliceV{A: e.newObj(arr, "pubkeytypes"), Len: 1, Cap: 1}
+		cp.F[i] = Ptr{O: e.newObj(vp, "validatorParams")}
+	}
+	return cp
 }
